@@ -279,8 +279,16 @@ class GenericElongationGroove(GrooveBase, ReprMixin):
         if (self.flank_angle + self.alpha4 - self.alpha2 - self.alpha3) > 0.01:
             raise ValueError("given angles should fulfill α1 + α4 = α2 + α3 to be geometrically plausible")
 
-        if self.y4 - self._flank_contour_line(self.z4) > 0.001 * self.depth:
+        if abs(self.y4 - self._flank_contour_line(self.z4)) > 0.001 * self.depth:
             raise ValueError("under given conditions a step appears in z4")
+
+        if not np.all(np.diff(self._contour_points[:, 0]) > 0):
+            raise ValueError(
+                "under given conditions the contour runs backwards (negative flank length or radii that do not fit)"
+            )
+
+        if np.min(self._contour_points[:, 1]) < -1e-9 * max(self.depth, self.usable_width):
+            raise ValueError("under given conditions the contour dips below the roll face")
 
     def test_complexity_of_contour_line(self):
         if not self.contour_line.is_simple:
